@@ -46,17 +46,23 @@ type PeerSpec struct {
 	Honest bool   `json:"honest"`
 	Late   bool   `json:"connects_after_first_drop,omitempty"`
 	// long-chain stage
-	HookAt    int64   `json:"connected_by_the_gap_hook_at,omitempty"` // class "gap": connected by the harness inside the verify/apply window of that height
-	LateAfter int     `json:"connects_after_n_error_drops,omitempty"` // with Late: how many peers the node must have dropped for an error first (default 1)
-	Silent    bool    `json:"never_answers,omitempty"`
-	Wave      int     `json:"wave,omitempty"`     // > 0: connects with that wave ...
-	Leaves    bool    `json:"leaves,omitempty"`   // ... and disconnects once it has been given requests
-	BadFrom   int64   `json:"bad_from,omitempty"` // answers heights in [BadFrom, BadTo] with BadKind
-	BadTo     int64   `json:"bad_to,omitempty"`
-	BadKind   string  `json:"bad_kind,omitempty"`
-	Base      int64   `json:"base"`
-	Height    int64   `json:"height"` // claimed in StatusResponse
-	Beh       []BehAt `json:"beh,omitempty"`
+	HookAt int64 `json:"connected_by_the_gap_hook_at,omitempty"` // class "gap": connected by the harness inside the verify/apply window of that height
+	// class "leftover": answers the heights in Ahead first (with AheadKind blocks), everything else only
+	// once those have been delivered: then it leaves, or answers up to CatchAt+1 with a forged block at CatchAt
+	Ahead           []int64 `json:"ahead,omitempty"`
+	AheadKind       string  `json:"ahead_kind,omitempty"`
+	CatchAt         int64   `json:"caught_at,omitempty"`
+	LeaveAfterAhead bool    `json:"leaves_after_ahead,omitempty"`
+	LateAfter       int     `json:"connects_after_n_error_drops,omitempty"` // with Late: how many peers the node must have dropped for an error first (default 1)
+	Silent          bool    `json:"never_answers,omitempty"`
+	Wave            int     `json:"wave,omitempty"`     // > 0: connects with that wave ...
+	Leaves          bool    `json:"leaves,omitempty"`   // ... and disconnects once it has been given requests
+	BadFrom         int64   `json:"bad_from,omitempty"` // answers heights in [BadFrom, BadTo] with BadKind
+	BadTo           int64   `json:"bad_to,omitempty"`
+	BadKind         string  `json:"bad_kind,omitempty"`
+	Base            int64   `json:"base"`
+	Height          int64   `json:"height"` // claimed in StatusResponse
+	Beh             []BehAt `json:"beh,omitempty"`
 }
 
 type Scenario struct {
@@ -83,6 +89,14 @@ func (p *PeerSpec) beh(h int64) BehAt {
 	if p.Silent {
 		return BehAt{H: h, Kind: "silent"}
 	}
+	for _, a := range p.Ahead {
+		if a == h {
+			return BehAt{H: h, Kind: p.AheadKind}
+		}
+	}
+	if p.CatchAt != 0 && h == p.CatchAt {
+		return BehAt{H: h, Kind: "wrongTxs"}
+	}
 	if p.BadKind != "" && h >= p.BadFrom && h <= p.BadTo {
 		return BehAt{H: h, Kind: p.BadKind}
 	}
@@ -95,11 +109,11 @@ func (p *PeerSpec) beh(h int64) BehAt {
 }
 
 // classOf fixes the class of every case index (fixed-length lists per tier).
-var classPattern = []string{"control", "tip", "quorum", "mixed", "nilfork", "replica", "inflated", "second", "tip", "gap",
-	"control", "quorum", "replica", "inflated", "nilfork", "second", "gap", "mixed", "quorum", "second"}
+var classPattern = []string{"control", "tip", "quorum", "mixed", "nilfork", "replica", "inflated", "leftover", "tip", "gap",
+	"control", "quorum", "replica", "inflated", "nilfork", "second", "gap", "mixed", "leftover", "second"}
 
 // the quick tier's v1 / v2 cases
-var otherVersionsPattern = []string{"quorum", "second", "replica", "gap", "second", "nilfork", "tip", "replica", "quorum", "second"}
+var otherVersionsPattern = []string{"quorum", "second", "replica", "gap", "second", "nilfork", "tip", "replica", "quorum", "leftover"}
 
 // The deciding target is v0.  The same peers also drive v1 and v2: a few cases of the boundary /
 // second-block / fork classes in the quick tier, the whole pattern in the thorough tier.
@@ -669,7 +683,11 @@ func genScenario(c *verdict.Ctx, idx int) (*Scenario, *world) {
 			powers[i] = int64(5 + r.Intn(16))
 		}
 	}
-	sc.Chain = ChainSpec{Seed: r.Int63(), Powers: powers, Len: 8 + r.Intn(13), Initial: 1,
+	chainLen := 8 + r.Intn(13)
+	if sc.Class == "leftover" {
+		chainLen = 30 + r.Intn(15)
+	}
+	sc.Chain = ChainSpec{Seed: r.Int63(), Powers: powers, Len: chainLen, Initial: 1,
 		ValChanges: r.Intn(10) < 7, NonCommit: []float64{0, 0.3, 0.6}[r.Intn(3)], FailedProb: []float64{0, 0.15, 0.3}[r.Intn(3)]}
 	nilforkStep, nilforkWeak := 0, false
 	if sc.Class == "nilfork" {
@@ -867,6 +885,43 @@ func genScenario(c *verdict.Ctx, idx int) (*Scenario, *world) {
 		sc.Peers = append(sc.Peers, p)
 		if sc.NodeStart >= g-1 {
 			sc.NodeStart = 0
+		}
+	case "leftover":
+		// A liar, at first the only peer, delivers non-canonical blocks for heights well AHEAD of the pool
+		// height (out of order: those answers come first), and is then removed for another reason before
+		// the pool gets there: caught on a forged block at a low height, or it disconnects.  Only after it
+		// is gone do one or two honest peers connect and serve the rest; they do not come back if dropped.
+		// Whatever the removed peer had delivered must not be used any more: the node reaches the tip.
+		s0 := w.first - 1
+		if sc.NodeStart > 0 {
+			if sc.NodeStart > w.first+3 {
+				sc.NodeStart = w.first + r.Int63n(4)
+			}
+			s0 = sc.NodeStart
+		}
+		z := PeerSpec{Name: "liarZ", Base: w.first, Height: T, AheadKind: []string{"wrongTxs", "wrongHeader", "minority"}[r.Intn(3)]}
+		catch := s0 + 1 + r.Int63n(4)
+		// (v1 and v2 declare themselves finished when a failed pair leaves them without peers, so for
+		// them the liar mostly just leaves)
+		if r.Intn(3) == 0 || (sc.Version != "v0" && r.Intn(3) != 0) {
+			z.LeaveAfterAhead = true
+		} else {
+			z.CatchAt = catch
+		}
+		used := map[int64]bool{}
+		for k := 3 + r.Intn(4); len(z.Ahead) < k; {
+			a := catch + 4 + r.Int63n(s0+19-(catch+4)+1)
+			if !used[a] {
+				used[a] = true
+				z.Ahead = append(z.Ahead, a)
+			}
+		}
+		sort.Slice(z.Ahead, func(i, j int) bool { return z.Ahead[i] < z.Ahead[j] })
+		sc.Peers = append(sc.Peers, z)
+		for i, nh := 0, 1+r.Intn(2); i < nh; i++ {
+			hp := honest(fmt.Sprintf("h%d", i), T)
+			hp.Late, hp.LateAfter = true, 1
+			sc.Peers = append(sc.Peers, hp)
 		}
 	case "gap":
 		// Check-then-use: between the moment the node has verified block H (commit of H+1 verified,
